@@ -7,7 +7,14 @@ IGNS = {
     'anon': (['ignore " "+'], [('rep', ('lit', ' '), 1, None)]),
     'named': (['ignore Sp = " "'], [('lit', ' ')]),
     'two': (['ignore Sp = /[ ]+/', 'ignore "_"'], [('rx', '[ ]+'), ('lit', '_')]),
+    # several patterns that are all regular expressions, with what makes a regular expression sensitive to being
+    # combined with another: numbered and named groups with backreferences, an alternation at top level
+    'rx2': (['ignore /( )+/', 'ignore Cm = /#(=*)#\\1_/'], [('rx', '( )+'), ('rx', '#(=*)#\\1_')]),
+    'rx3': (['ignore /[ ]+/', 'ignore /(?P<q>#)=*(?P=q)/', 'ignore /_|=_/'], [('rx', '[ ]+'), ('rx', '(?P<q>#)=*(?P=q)'), ('rx', '_|=_')]),
 }
+ALPHA = {'two': 'ab _', 'rx2': 'ab #', 'rx3': 'ab #'}
+EXTRA = {'rx2': ('a#=#=_b', 'a##_b', 'a #=#=_ b', 'a#==#=_b', 'a#=#_b', 'ab##_', '##_ab #=#=_a', 'a##_#=#=_b', 'a# #_b'),
+         'rx3': ('a#=#b', 'a##b', 'a_b', 'a=_b', 'a #==# _b', 'a=b', 'a#=b', '_a=_b##', 'a#=#_=_b', 'ab =_ ##')}
 
 
 def is_leaf_lit(e):
@@ -77,8 +84,8 @@ def jobs_for(tier, rnd):
     for n, e in enumerate(es):
         vs = [variants[(n + j * 5) % len(variants)] for j in range(2 if tier == 'quick' else 4)]
         for ign, where, klass in vs:
-            alpha = 'ab _' if ign == 'two' else 'ab '
-            TX = G.texts(alpha, 4, extra=(' a b ', 'a  b', 'ab  ', '  ab', ' a  a  b', ' b a', '  b ab', ' b  a b'))
+            alpha = ALPHA.get(ign, 'ab ')
+            TX = G.texts(alpha, 4, extra=(' a b ', 'a  b', 'ab  ', '  ab', ' a  a  b', ' b a', '  b ab', ' b  a b') + EXTRA.get(ign, ()))
             d, dx = describe(e, ign, where, klass)
             opts = {'ign': ign, 'where': where, 'klass': klass}
             jobs.append((gid, d, TX, dict(opts, role='ignore')))
@@ -225,7 +232,7 @@ def run(R):
     R.assumptions += ['token matchers of the generated grammars cannot match or look at the ignorable characters (space, underscore)',
                       'Backtrack is not generated (the property excludes looking behind)']
     return R.finish(
-        rule='core expression shapes (depth<=2 and restoring contexts) x ignore declarations {anonymous, named, two patterns} x '
+        rule='core expression shapes (depth<=2 and restoring contexts) x ignore declarations {anonymous, named, two patterns, two and three regular expressions with groups, backreferences and top-level alternation} x '
              '{declared before, after the rules} x {plain start rule, class start rule}; inputs over {a,b,space[,_]} up to length 4; '
              'three judgements: model/spec vs implementation on the translator\'s output, the same grammar with skipping written '
              'explicitly (l << Skip(I), start = Skip(I) >> body), and lengthened ignorable runs',
